@@ -10,7 +10,7 @@
    it is validated against the reference RefAlg.mp_eval_rn by denotation on every run.
    The pre-repair root_lower_bound and its refutation are in History_C10.v. *)
 From Coq Require Import ZArith NArith List Bool.
-From LP Require Import Scalar UPoly MPoly.
+From LP Require Import Scalar UPoly MPoly Sylvester.
 Import ListNotations.
 Local Open Scope Z_scope.
 
@@ -91,6 +91,45 @@ Fixpoint eval_rat (order : list var) (M : var -> option rat) (C : mpoly) : mpoly
         (sum_scaled (subst_terms rs m_lcm p q O n), z_pow_nat q n * m_lcm)
       end
   end.
+
+(* ---------------------------------------------------------------- coefficient_sgn: the exits before the interval stage *)
+(* C->type == COEFFICIENT_NUMERIC (canonical mpoly: the zero polynomial or a single constant term) *)
+Definition mp_numeric (p : mpoly) : option Z :=
+  match p with
+  | [] => Some 0
+  | [([], c)] => Some c
+  | _ => None
+  end.
+
+(* `if (C numeric) sgn = integer_sgn(C) else { evaluate_rationals; if (C_rat numeric) sgn = integer_sgn(C_rat) else ... }`
+   Some s: one of the two numeric exits is taken and the function returns s; None: the interval stage is entered *)
+Definition coef_sgn_numeric (order : list var) (M : var -> option rat) (C : mpoly) : option Z :=
+  match mp_numeric C with
+  | Some c => Some (Z.sgn c)
+  | None =>
+    match mp_numeric (fst (eval_rat order M C)) with
+    | Some c => Some (Z.sgn c)
+    | None => None
+    end
+  end.
+
+(* ---------------------------------------------------------------- coefficient_resolve_algebraic, one step *)
+(* `coefficient_resultant(ctx, A_alg, A_alg, &y_poly)`: y = VAR(A_alg) is the top variable, its value is a root of
+   the integer polynomial f (low degree first).  The resultant is the REFERENCE resultant of C04 (Sylvester.v);
+   that libpoly's subresultant algorithm computes it is property C04. *)
+Definition elim_alg (y : var) (A : mpoly) (f : list Z) : mpoly :=
+  resultant_mp (mp_coeffs y A) (map mp_const f).
+
+(* the coefficient list in z of a polynomial in which z is the only variable left (any other variable reads as 0) *)
+Definition upoly_in (z : var) (B : mpoly) : list Z :=
+  match B with
+  | [] => []
+  | _ => map (fun k => mp_eval (fun _ => 0) (mp_coeff z (N.of_nat k) B)) (seq 0 (S (N.to_nat (mp_degree z B))))
+  end.
+
+(* the eliminant B(z) of coefficient_sgn for ONE algebraic variable y: A = z - C_rat, B = Res_y (A, f) *)
+Definition eliminant1 (z y : var) (C_rat : mpoly) (f : list Z) : list Z :=
+  upoly_in z (elim_alg y (mp_sub (mp_var_pow z 1) C_rat) f).
 
 (* ---------------------------------------------------------------- coefficient_root_lower_bound *)
 (* integer_log2_abs = mpz_sizeinbase(a, 2) for a <> 0 *)
